@@ -56,6 +56,16 @@ def units(tier):
                     us.append({"name": f"rep{k}_s{si}_o{off}", "shape": {"kind": "win", "sent": sent, "off": off, "k": k, "mode": "replace"}})
                 if k == 2:
                     us.append({"name": f"ins{k}_s{si}_o{off}", "shape": {"kind": "win", "sent": sent, "off": off, "k": k, "mode": "insert"}})
+    # frames: a fixed skeleton around a run of k free characters, so that header / value / rule
+    # positions see every short string even where the whole-string bound does not reach
+    kf = 4 if tier == "quick" else 6
+    for name, pre, post, k0 in (("hdr", "(", "=x)", 1), ("val", "(a=", ")", 1), ("rule", "(a:", ":=x)", 1), ("dnrule", "(a:dn:", ":=x)", 1), ("norule", "(:", ":=x)", 1), ("sub", "(a=b*", ")", 1), ("nest", "(&(a=b)", ")", 1)):
+        for k in range(k0, (kf if name in ("hdr", "val") else kf - 1) + 1):
+            us.append({"name": f"frame_{name}_k{k}", "shape": {"kind": "win", "sent": pre + "a" * k + post, "off": len(pre), "k": k, "mode": "replace"}})
+    # degenerate concrete strings (nothing symbolic): empty components between separators
+    for i, t in enumerate(["(a::=x)", "(::=x)", "(a:dn::=x)", "(:dn::=x)", "(a:=)", "(=x)", "(a=)", "(a:dn:=x)", "(:=x)", "(a;=x)", "(a;;b=x)", "(a=*)", "(a=**)", "(a=*b**c)", "()", "(&)", "(|)", "(!)", "(!(a=b)(c=d))", "(a=b)(c=d)", "((a=b))", "(a=b", "a=b)", "(a=\\)", "(a=\\5)", "(a=\\5g)", "(a=b*\\zz)", "(a=b*c*\\zz*d)"]):
+        t = t.replace("\\\\", "\\")
+        us.append({"name": f"degenerate_{i}", "shape": {"kind": "win", "sent": t, "off": 0, "k": 0, "mode": "replace"}})
     # every sentence of C14's grammar generator (symbolic holes): accepted text must satisfy the
     # acceptance clauses too (valid attributes, text form re-parses to the same result)
     from checks import c14
